@@ -51,6 +51,7 @@ fn fixed_cases() -> Vec<PriceCase> {
                 Posting { account: 0, amount: Some(l(q, 0, x)), cost: Some(Exch::Rate(l(m, s, y))), lot: None, balance: None },
                 Posting { account: EQUITY, amount: None, cost: None, lot: None, balance: None },
             ],
+            head: Head::default(),
         })
     };
     let pl = |date: i32, target: usize, m: i64, scale: u32, comm: usize| PLine { date, target, m, scale, comm };
@@ -103,6 +104,7 @@ fn run_case(sh: &mut Shards, st: &mut Stats, scratch: &cli::Scratch, r: &mut Rng
     let db_path = if case.db.is_empty() && r.chance(1, 2) { None } else { Some(scratch.write("prices.db", &dbt)) };
     let ledger_path = scratch.write("case.ledger", &rendered.text);
     let evs = events(case);
+    shape_text_stats(st, &shape(&case.entries));
     let dates = query_dates(r, &evs, &[], 5);
     let mut pairs: Vec<(usize, usize)> = Vec::new();
     let known = known_commodities(case);
@@ -259,6 +261,7 @@ pub fn run(o: &Opts) {
     let header = "From Coq Require Import List NArith ZArith QArith Qcanon.\nFrom Okv Require Import Base.Maps Base.Dec Model.Amount Model.Book Model.PriceDb Run.LedgerCase Run.PriceCase Run.Classify_C09.\nImport ListNotations.\nOpen Scope N_scope.";
     let mut sh = Shards::new(&o.out, o.shards, header);
     st.rule = "2-5 commodities, 1-8 dated prices from ledger costs (@, @@), lot prices ({}, {{}}), lot+cost, zero-quantity quotes, implied exchanges and price-DB `P` lines (a real file under .build/, passed as ProcessOptions.price_db_path / --price-db; zero, negative and self-mention lines included), graphs: random pairs with cycles and parallel records, chains, stars, disconnected islands and unpriced commodities; same-day records; file order differs from date order. Queries: `1 A` into B for every ordered pair as of up to 5 dates before / on / between / after the price dates, through Ledger::eval and (a sample) `okane primitive eval` in-process. One evaluation = one query; non-trivial = A <> B and ((>= 2 prices and the pair is not directly priced) or the query date is a price date); distinct by (ledger text, price-DB text, pair, date)".into();
+    st.rule = format!("{}; {}", st.rule, TEXT_SHAPES_RULE);
     st.assumptions.push("exact stream: every rate and quantity is a product of powers of 2 and 5, so reciprocals and chained products are exact Decimals and answers are compared exactly; arbitrary-rate stream (counted separately): compared with relative tolerance 1e-18".into());
     st.assumptions.push("where several optimal chains with different rates exist (counted as query:genuine_tie) the implementation's choice depends on HashMap iteration order; any optimal rate is accepted".into());
     let scratch = cli::Scratch::new("c09");
@@ -268,7 +271,8 @@ pub fn run(o: &Opts) {
         run_case(&mut sh, &mut st, &scratch, &mut r, &c, "corpus", 6);
     }
     if !replay {
-        for c in fixed_cases() {
+        for (n, mut c) in fixed_cases().into_iter().enumerate() {
+            vary_shapes_nth(&mut c.entries, n);
             run_case(&mut sh, &mut st, &scratch, &mut r, &c, "fixed", 6);
         }
         let n = if o.thorough { 6000 } else { 500 };
